@@ -67,6 +67,7 @@ func (c10) ID() string { return "C10" }
 func (c10) Rule() string {
 	return "(codec) for each of the 14 registered syntaxes and a frame sequence of length 1..8: the harness PixelData records every GetFrame/AddFrame; oracles: one AddFrame per input in order, output i of the n-frame call == output of a solo call on frame i (same registry instance and a newly constructed instance), repeating the call after an unrelated call gives identical bytes, source buffers (with canary-filled spare capacity) unchanged, decoded frame length = Rows*Columns*SamplesPerPixel*ceil(BitsAllocated/8) (RLE: even), lossless syntaxes decode to the source. " +
 		"(encobj) one jpeg2000.Encoder encoding a sequence of different frames vs a fresh Encoder per frame; (decobj) one jpeg2000.Decoder decoding a sequence of unrelated streams (plain, RCT, custom MCT markers, MCT bindings, ROI with private COM marker, lossy, multi-layer; different sizes/components) vs a fresh Decoder per stream, comparing error, geometry and pixel bytes. " +
+		"(typed) a quarter of the histories of .50 .51 .57 .81 .90 .91 .92 .93 pass the codec's own parameter type with non-default values (explicit sub-band steps with a scale for .91/.93); the n-frame call, the rejected calls and the repeated call share one object, solo reference calls get fresh equal ones; (stats) 16-bit Fibonacci-category frames through .57/.70 and speckle-with-annotation frames through .50/.51. " +
 		"non-trivial: at least one frame went through every oracle of its kind; distinct = distinct descriptor (history)"
 }
 func (c10) Assumptions() []string {
